@@ -29,6 +29,10 @@ def run(ctx, rep):
         read_rules(ctx, rep, impl)
         read_buf_rules(ctx, rep, impl)
         mutators(ctx, rep, impl)
+    # the decoder the loop relies on: removes exactly the announced frame before parsing it, and parses nothing else - so what a
+    # packet decodes to cannot depend on which bytes happen to be buffered behind it (R4.2, shared with C04)
+    from props import c04
+    c04.decode(ctx, rep)
     rep.floor("R5.1", 3 * len(net.impls_present(ctx)))
     rep.floor("R5.3", 4 * len(net.impls_present(ctx)))
 
